@@ -482,19 +482,20 @@ func (s *recordingSpan) End(options ...trace.SpanEndOption) {
 		s.addEvent(semconv.ExceptionEventName, opts...)
 	}
 
-	if s.executionTracerTaskEnd != nil {
-		s.mu.Unlock()
-		s.executionTracerTaskEnd()
-		s.mu.Lock()
-	}
-
 	// Setting endTime to non-zero marks the span as ended and not recording.
+	// This needs to be done before the lock is released so a concurrent call
+	// to End does not also pass the recording check above.
 	if config.Timestamp().IsZero() {
 		s.endTime = et
 	} else {
 		s.endTime = config.Timestamp()
 	}
+	executionTracerTaskEnd := s.executionTracerTaskEnd
 	s.mu.Unlock()
+
+	if executionTracerTaskEnd != nil {
+		executionTracerTaskEnd()
+	}
 
 	sps := s.tracer.provider.getSpanProcessors()
 	if len(sps) == 0 {
